@@ -30,6 +30,7 @@ import (
 	"github.com/bluenviron/mediamtx/internal/conf"
 	"github.com/bluenviron/mediamtx/internal/conf/jsonwrapper"
 	"github.com/bluenviron/mediamtx/internal/externalcmd"
+	"github.com/bluenviron/mediamtx/internal/logger"
 	"github.com/bluenviron/mediamtx/internal/zzsim/comprec"
 	"github.com/bluenviron/mediamtx/internal/zzsim/fsnotify"
 	"github.com/bluenviron/mediamtx/internal/zzsim/simrt"
@@ -293,15 +294,23 @@ func (w *w6World) Gen(rng *rand.Rand, property, tier string) (any, simrt.Sched) 
 		return changed
 	}
 	nb := 1 + rng.Intn(4)
+	if property == "C12" {
+		nb = 3 + rng.Intn(4)
+	}
 	for i := 0; i < nb; i++ {
 		var bu w6Burst
 		ns := 1
-		if rng.Intn(3) == 0 {
+		if rng.Intn(3) == 0 && property != "C12" {
 			ns = 2 + rng.Intn(2)
 		}
 		for j := 0; j < ns; j++ {
 			st := w6Step{GapMs: []int64{0, 0, 1, 20, 500, 1500}[rng.Intn(6)]}
 			k := rng.Intn(10)
+			if property == "C12" {
+				// exactness of API edits over every global parameter: one patch at a time,
+				// now and then a rewrite of the file in between
+				k = []int{4, 4, 4, 4, 0}[rng.Intn(5)]
+			}
 			if property == "C38" {
 				// the watcher inside the server: file rewrites only, around the 10 ms and 1 s thresholds
 				k = 0
@@ -352,14 +361,14 @@ func (w *w6World) Gen(rng *rand.Rand, property, tier string) (any, simrt.Sched) 
 			}
 			bu.Steps = append(bu.Steps, st)
 		}
-		if property != "C38" && rng.Intn(6) == 0 {
+		if property == "C13" && rng.Intn(6) == 0 {
 			// a burst of patches of one live path that only touch parameters applied in place
 			bu.Steps = nil
 			for j, n := 0, 2+rng.Intn(2); j < n; j++ {
 				bu.Steps = append(bu.Steps, w6Step{Kind: "ppatch", Name: "p1", GapMs: []int64{0, 0, 0, 1}[rng.Intn(4)], Set: w6HotFields(rng, i*4+j)})
 			}
 		}
-		if property != "C38" && rng.Intn(12) == 0 {
+		if property == "C13" && rng.Intn(12) == 0 {
 			bu.Fail =[]string{"rtsp.Server", "rtmp.Server", "hls.Server", "webrtc.Server", "srt.Server", "moq.Server", "api.API", "metrics.Metrics", "pprof.PPROF", "playback.Server"}[rng.Intn(10)]
 		}
 		b.Bursts = append(b.Bursts, bu)
@@ -606,7 +615,7 @@ func (w *w6World) Run(t *testing.T, sc *simrt.Scenario, cfg simrt.Config) simrt.
 		signal.Notify(c, os.Interrupt)
 		signal.Stop(c)
 	}
-	checkpoints, reloads, recreated, kept, accepted, fileLoads := 0, 0, 0, 0, 0, 0
+	checkpoints, reloads, recreated, kept, accepted, fileLoads, exactChecks := 0, 0, 0, 0, 0, 0, 0
 	exited := false
 	failFired := 0
 	res := simrt.Run(t, cfg, func() {
@@ -809,6 +818,16 @@ func (w *w6World) Run(t *testing.T, sc *simrt.Scenario, cfg simrt.Config) simrt.
 			var wg sync.WaitGroup
 			onlyFile := true
 			lastFile := ""
+			// a burst made of one accepted API patch of global parameters is judged for exactness (C12)
+			var soleGlobal *w6Step
+			soleOK := false
+			live := 0
+			for si := range bu.Steps {
+				if bu.Steps[si].Kind != "nop" {
+					live++
+				}
+			}
+			confBefore := p.conf.Load()
 			for si := range bu.Steps {
 				st := &bu.Steps[si]
 				if st.Kind == "nop" {
@@ -890,6 +909,9 @@ func (w *w6World) Run(t *testing.T, sc *simrt.Scenario, cfg simrt.Config) simrt.
 						if st.Kind != "file" {
 							accepted++
 						}
+						if st.Kind == "global" && live == 1 {
+							soleGlobal, soleOK = st, true
+						}
 					}
 					simrt.Rec("op.ret", st.Kind, st.Name, int64(bi), int64(si), okN)
 				}()
@@ -905,6 +927,15 @@ func (w *w6World) Run(t *testing.T, sc *simrt.Scenario, cfg simrt.Config) simrt.
 			reloads += len(chain) - 1 - chainMark
 			if !check(fmt.Sprintf("after change %d", bi+1)) {
 				break
+			}
+			if soleOK && soleGlobal != nil {
+				// C12, over every global parameter: an accepted patch changes exactly the fields it
+				// carries, to the value the same text gives when it is read from a configuration file
+				exactChecks++
+				if msg := w6Exact(dir, confBefore, p.conf.Load(), soleGlobal.Set, p); msg != "" {
+					simrt.Violate("C12", "patch-not-exact", "API patch %s: %s", w6Payload(soleGlobal.Set), msg)
+					break
+				}
 			}
 			if onlyFile && lastFile != "" {
 				// the watcher inside the server: the configuration in force is the file's
@@ -941,8 +972,74 @@ func (w *w6World) Run(t *testing.T, sc *simrt.Scenario, cfg simrt.Config) simrt.
 	out.Nontrivial = reloads > 0
 	out.Abstract = []string{fmt.Sprintf("b%d r%d rc%d k%d x%v", len(b.Bursts), reloads, recreated, kept, exited), res.Hash}
 	out.Extra = map[string]any{"checkpoints": checkpoints, "configurations_applied": reloads, "components_recreated": recreated,
-		"components_kept": kept, "accepted_api_edits": accepted, "server_exited": w6B(exited), "start_failures_injected": failFired, "file_loads_compared": fileLoads}
+		"components_kept": kept, "accepted_api_edits": accepted, "server_exited": w6B(exited), "start_failures_injected": failFired, "file_loads_compared": fileLoads, "api_patches_checked_for_exactness": exactChecks}
 	return out
+}
+
+// w6Exact compares the configuration after an accepted patch of global parameters with the one
+// before: fields outside the patch are unchanged, fields in the patch hold what a configuration
+// file with the same text yields ("" = exact).
+func w6Exact(dir string, before, after *conf.Conf, set map[string]string, lg logger.Writer) string {
+	toMap := func(c *conf.Conf) (map[string]json.RawMessage, error) {
+		raw, err := json.Marshal(c)
+		if err != nil {
+			return nil, err
+		}
+		m := map[string]json.RawMessage{}
+		err = json.Unmarshal(raw, &m)
+		return m, err
+	}
+	mb, err1 := toMap(before)
+	ma, err2 := toMap(after)
+	if err1 != nil || err2 != nil {
+		return ""
+	}
+	// the reference for the patched fields: the same text, through the file loader
+	fp := filepath.Join(dir, "exact.yml")
+	var sb strings.Builder
+	keys := make([]string, 0, len(set))
+	for k := range set {
+		keys = append(keys, k)
+	}
+	sort.Strings(keys)
+	for _, k := range keys {
+		fmt.Fprintf(&sb, "%s: %s\n", k, set[k])
+	}
+	os.WriteFile(fp, []byte(sb.String()), 0o644)
+	ref, _, err := conf.Load(fp, nil, lg)
+	if err != nil {
+		return "" // the file loader refuses this combination on its own: nothing to compare with
+	}
+	mr, err := toMap(ref)
+	if err != nil {
+		return ""
+	}
+	inSet := map[string]bool{}
+	for _, k := range keys {
+		inSet[k] = true
+		if string(ma[k]) != string(mr[k]) {
+			return fmt.Sprintf("field %s is %s afterwards, a configuration file with the same text gives %s", k, w6Short(string(ma[k])), w6Short(string(mr[k])))
+		}
+	}
+	all := make([]string, 0, len(mb))
+	for k := range mb {
+		all = append(all, k)
+	}
+	for k := range ma {
+		if _, ok := mb[k]; !ok {
+			all = append(all, k)
+		}
+	}
+	sort.Strings(all)
+	for _, k := range all {
+		if inSet[k] {
+			continue
+		}
+		if string(ma[k]) != string(mb[k]) {
+			return fmt.Sprintf("field %s, which the patch does not carry, changed from %s to %s", k, w6Short(string(mb[k])), w6Short(string(ma[k])))
+		}
+	}
+	return ""
 }
 
 func w6B(b bool) int {
